@@ -74,28 +74,34 @@ def millerIter (bit : Bool) (st : Q12 F × List (APair F) × List (PPair F)) : Q
 def millerBits : List Bool :=
   (List.range (Consts.bls_x_highest_set_bit - 1)).map fun i => Consts.bls_x.testBit (Consts.bls_x_highest_set_bit - 1 - i)
 
+/-- the pair records as `miller_loop` initialises them -/
+def initA (p : Aff F × Aff (Q2 F)) : APair F := { g1 := p.1, g2 := p.2, r := Proj2.from_affine p.2 }
+def initP (p : Aff F × Prepared F) : PPair F := { g1 := p.1, g2 := p.2, idx := 0 }
+
+/-- after the main loop: the final doubling round for every pair, then the conjugation for negative x -/
+def finishLoop (st : Q12 F × List (APair F) × List (PPair F)) : Q12 F :=
+  let res := (roundPrepared (roundAffine false st.1 st.2.1).1 st.2.2).1
+  if Consts.bls_x_is_negative = 1 then Fq12.conjugate_oa res else res
+
 /-- `miller_loop(result, affine_pairs, n, prepared_pairs, m)`. -/
 def millerLoop (affine : List (Aff F × Aff (Q2 F))) (prepared : List (Aff F × Prepared F)) : Q12 F :=
-  let as : List (APair F) := affine.map fun (g1, g2) => { g1 := g1, g2 := g2, r := Proj2.from_affine g2 }
-  let ps : List (PPair F) := prepared.map fun (g1, g2) => { g1 := g1, g2 := g2, idx := 0 }
-  let (res, as, ps) := millerBits.foldl (fun st b => millerIter b st) ((1 : Q12 F), as, ps)
-  let (res, _) := roundAffine false res as
-  let (res, _) := roundPrepared res ps
-  if Consts.bls_x_is_negative = 1 then Fq12.conjugate_oa res else res
+  finishLoop (millerBits.foldl (fun st b => millerIter b st) ((1 : Q12 F), affine.map initA, prepared.map initP))
+
+/-- the body of `G2Prepared::prepare`'s loop for one bit: doubling step, then (for a set bit) addition step; the
+coefficients are pushed on `acc` (most recent first). -/
+def prepStep (g2 : Aff (Q2 F)) (st : Jac (Q2 F) × List (MT F)) (bit : Bool) : Jac (Q2 F) × List (MT F) :=
+  let (r, acc) := st
+  let (c, r) := miller_doubling_step r
+  let acc := c :: acc
+  if bit then
+    let (c2, r) := miller_addition_step r g2
+    (r, c2 :: acc)
+  else (r, acc)
 
 /-- `G2Prepared::prepare`. -/
 def prepare (g2 : Aff (Q2 F)) : Prepared F :=
-  let step := fun (st : Jac (Q2 F) × List (MT F)) (bit : Bool) =>
-    let (r, acc) := st
-    let (c, r) := miller_doubling_step r
-    let acc := c :: acc
-    if bit then
-      let (c2, r) := miller_addition_step r g2
-      (r, c2 :: acc)
-    else (r, acc)
-  let (r, acc) := millerBits.foldl step (Proj2.from_affine g2, [])
-  let (c, _) := miller_doubling_step r
-  { coeffs := (c :: acc).reverse, infinity := g2.infinity }
+  let st := millerBits.foldl (prepStep g2) (Proj2.from_affine g2, [])
+  { coeffs := ((miller_doubling_step st.1).1 :: st.2).reverse, infinity := g2.infinity }
 
 /-- `pairing(result, g1, g2)`: Miller loop, then `final_exponentiation(result, result)`. -/
 def pairing (g1 : Aff F) (g2 : Aff (Q2 F)) : Q12 F := final_exponentiation_oa (millerLoop [(g1, g2)] [])
